@@ -40,6 +40,7 @@ structure Obs where   -- what the oracle needs, gathered independently of the mo
   zAttempts : List Nat := []
   failAtt : List Nat := []                               -- attempts answered D, or Z while the message was past its queue lifetime (clock > birth + life at report time)
   pendPara : List Nat := []                              -- … whose bounce paragraph has not been seen yet, oldest first (volatile: emptied at every start)
+  paraText : List (Key × Bytes) := []                    -- the paragraph (`<addr>:` LF report LF LF, as written by `addbounce`) last appended for a record
   inFile : List Key := []                                -- records whose paragraph was appended to the *current* bounce/<m>
   noted : List Key := []                                 -- records whose paragraph was appended, ever
   bounced : List Key := []                               -- records named in a bounce of their message that qmail-queue accepted with the right envelope
@@ -93,8 +94,30 @@ def keyOfAtt (o : Obs) (att : Nat) : Option Key :=
 def recipOfKey (o : Obs) (k : Key) : Bytes :=
   ((o.cmds.find? (fun (_, c3, m3, mpos3, _, g3) => (m3, c3, mpos3, g3) == k)).map (fun (_, _, _, _, r, _) => r)).getD []
 
+/-- the whole paragraph last appended for record `k` (header line, report, empty line); a record counts as named in a text only
+if this whole paragraph occurs in it — not if merely its header line occurs somewhere (inside another report, …).  After a
+machine crash that left garbage in `bounce/<m>` a later paragraph follows the garbage directly, so "at a paragraph start" cannot
+be required; the complete paragraph can. -/
+def paraOf (o : Obs) (k : Key) : Option Bytes := (o.paraText.find? (fun x => x.1 == k)).map (·.2)
+def namedIn (o : Obs) (k : Key) (text : Bytes) : Bool :=
+  match paraOf o k with
+  | some p => isInfix p text
+  | none => false
+
 /-- first line of the bounce paragraph of a recipient (`addbounce`) -/
 def paraHdr (recip : Bytes) : Bytes := [60] ++ sanitizeLF recip ++ [62, 58, 10]
+
+/-- the text before the first occurrence of `pat` (the whole text if there is none) -/
+def cutAt (pat : Bytes) : Bytes → Bytes
+  | [] => []
+  | x :: xs => if pat.isPrefixOf (x :: xs) then [] else x :: cutAt pat xs
+
+/-- the part of a bounce notice that holds the content of `bounce/<m>` (`injectbounce`: preamble, the file, then — after the
+empty line that ends the last paragraph — the line `--- Below this line is a copy of the message.` / `… the original bounce.`
+and the original message, in which anything may occur) -/
+def noticeHead (body : Bytes) : Bytes :=
+  let h := cutAt ([10, 10] ++ "--- Below this line is ".toUTF8.toList) body
+  if h.length < body.length then h ++ [10, 10] else h     -- the empty line belongs to the last paragraph
 
 /-- the observer's own reading of the report stream: which in-flight attempt got which letter
 (line buffers kept reversed with their length) -/
@@ -179,7 +202,8 @@ def dumpRecsPos (b : Bytes) : List (Nat × Bool × Bytes) :=
 /-- end of a case: recipient accounting on the concrete run (C03).  Every accepted recipient is identified by its record
 (message, channel, byte offset — the harness's recipients are routed as they are, in order) and must be: reported `K`; named
 in a bounce of ITS message that qmail-queue accepted with the envelope `bounceEnvelope` of the accepted sender; still `T` at
-its offset; still in `todo/<m>`; named in `bounce/<m>` which exists together with `info/<m>`; or exempt — *its own* paragraph was
+its offset in a channel file that exists together with `info/<m>` and `mess/<m>`; still in `todo/<m>` (with `mess/<m>`); its whole
+paragraph in `bounce/<m>`, which exists together with `info/<m>` and `mess/<m>`; or exempt — *its own* paragraph was
 in the bounce file of a `#@[]` message when that was discarded, or in `bounce/<m>` before a machine crash and not after. -/
 def finishCase (d0 : D) : IO D := do
   let mut d := d0
@@ -200,22 +224,26 @@ def finishCase (d0 : D) : IO D := do
       let delivered := myCmds.any (fun (a, _) => o.kAttempts.contains a)
       let bounced := o.bounced.contains key
       let fileOf (dir : String) : Option Bytes := (dump.find? (fun (p, _) => p == s!"{dir}/{m % Gen.auto_split}/{m}")).map (·.2)
+      -- "still queued" / "bounce pending" need the files the theorem's disjuncts name (`Fate`: info.isSome ∧ mess; while
+      -- todo/<m> exists: mess): a `T` record or a paragraph without info/<m> and mess/<m> is not a queued recipient
+      let infoThere := (fileOf "info").isSome
+      let messThere := (fileOf "mess").isSome
       let stillT := ((fileOf (if ch == 0 then "local" else "remote")).map
                       (fun b => (dumpRecsPos b).any (fun (off, dn, a) => off == mpos && !dn && a == addr))).getD false
-      let inTodo := ((dump.find? (fun (p, _) => p == s!"todo/{m}")).map (fun (_, b) => (envRcpts b).contains r)).getD false
+                    && infoThere && messThere
+      let inTodo := ((dump.find? (fun (p, _) => p == s!"todo/{m}")).map (fun (_, b) => (envRcpts b).contains r)).getD false && messThere
       let inBounceFile := o.inFile.contains key &&
-        ((dump.find? (fun (p, _) => p == s!"bounce/{m}")).map (fun (_, b) => isInfix (paraHdr addr) b)).getD false
-      let infoThere := (fileOf "info").isSome
+        ((dump.find? (fun (p, _) => p == s!"bounce/{m}")).map (fun (_, b) => namedIn o key b)).getD false
       let exemptDouble := sender == "#@[]".toUTF8.toList && o.dropped.contains key
       let exemptCrash := o.lost.contains key
-      let ok := delivered || bounced || stillT || inTodo || (inBounceFile && infoThere) || exemptDouble || exemptCrash
+      let ok := delivered || bounced || stillT || inTodo || (inBounceFile && infoThere && messThere) || exemptDouble || exemptCrash
       if !ok then
         d ← oracleFail d "C03" s!"recipient {hex r} (record at offset {mpos} of chan {ch}) of message {m} is neither delivered, bounced nor still queued"
   return d
 
 /-- the observer's reading of one line of the queue dump taken after a crash (independent of the monitor):
 the `D` bytes that are on disk now (C04 oracle), and the bounce paragraphs that were in `bounce/<m>` before a MACHINE crash and
-are not in it afterwards (C03 exemption, per record) -/
+are not — whole — in it afterwards (C03 exemption, per record) -/
 def observeCrashDump (o : Obs) (mode : Nat) (path : String) (cur : Bytes) : Obs :=
   match pathMsg path with
   | some (dir, m) =>
@@ -227,7 +255,7 @@ def observeCrashDump (o : Obs) (mode : Nat) (path : String) (cur : Bytes) : Obs 
       { o with marks := onDisk ++ o.marks.filter (fun k => !(k.1 == m && k.2.1 == cn && k.2.2.2 == g)) }
     | none =>
       if dir == "bounce" && mode != 0 then
-        let gone := o.inFile.filter (fun k => k.1 == m && k.2.2.2 == g && !isInfix (paraHdr (recipOfKey o k)) cur)
+        let gone := o.inFile.filter (fun k => k.1 == m && k.2.2.2 == g && !namedIn o k cur)
         { o with lost := gone ++ o.lost, inFile := o.inFile.filter (fun k => !gone.contains k) }
       else o
   | none => o
@@ -327,7 +355,9 @@ def handle (d : D) (line : String) : IO D := do
         if sender == "#@[]".toUTF8.toList || env != bounceEnvelope d.c.cfg sender then
           dd ← oracleFail dd "C03" s!"bounce of message {m} (sender {hex sender}) was queued with envelope {hex env}"
         else
-          let named := o.inFile.filter (fun k => k.1 == m && k.2.2.2 == g && isInfix (paraHdr (recipOfKey o k)) body)
+          -- named = its whole paragraph, as appended, is in the part of the notice that holds the bounce file (not: its header
+          -- line occurs anywhere, e.g. inside a report text or inside the copy of the original message)
+          let named := o.inFile.filter (fun k => k.1 == m && k.2.2.2 == g && namedIn o k (noticeHead body))
           dd := { dd with c := { dd.c with obs := { o with bounced := named ++ o.bounced } } }
       | none => dd ← oracleFail dd "C03" s!"bounce queued for message {m}, which was never accepted"
     feed dd (.bounceInject m ok env body) s!"bounceInject m={m} ok={ok}"
@@ -337,6 +367,9 @@ def handle (d : D) (line : String) : IO D := do
     let c := { c with obs := { c.obs with active := [], dl0 := ([], 0), dl1 := ([], 0), pendPara := [], markQueue := [] } }
     endCrashDump { d with c := c }
   | "X" :: "crash-applied" :: rest =>
+    -- a CRASH: `.restart` opens the monitor's crash window (`St.crashed`); the crash-damage events the `D` lines of the dump
+    -- below give rise to are accepted only in it, and the first event of the restarted daemon closes it (`X newmsg` lines that
+    -- announce messages qmail-queue had linked before the crash may come in between: arrivals keep the window open)
     let mode := (kvOf rest "mode").toNat!
     let o := d.c.obs
     feed { d with c := { d.c with pendingCrashMode := some mode, obs := { o with reported := [], pendPara := [], markQueue := [] } } } .restart "restart"
@@ -344,7 +377,8 @@ def handle (d : D) (line : String) : IO D := do
     -- a new queue dump begins (it may be empty: then no `D` line follows and the oracle must not judge an older dump)
     return { d with c := { d.c with dumpTag := tag, finalDump := [] } }
   | "X" :: "clean-restart" :: _ =>
-    -- the daemon exited 0 after TERM and is started again on the same queue: volatile state is gone, every file stays
+    -- the daemon exited 0 after TERM and is started again on the same queue: volatile state is gone, every file stays;
+    -- no crash: `cleanRestart` opens no crash window (a crash-damage event after it would be refused)
     feed2 d .cleanRestart "cleanRestart"
   | "X" :: "end" :: rest =>
     -- C04 oracle: after TERM qmail-send waits for every outstanding report before it exits 0; a delivery in flight at a clean
@@ -493,7 +527,8 @@ def handle (d : D) (line : String) : IO D := do
         | some (a, key) =>
           let rep2 := if o.reported.contains key then o.reported else key :: o.reported
           let mq2 := if o.markQueue.contains key then o.markQueue else key :: o.markQueue
-          let o2 := { o with pendPara := o.pendPara.erase a, inFile := key :: o.inFile, noted := key :: o.noted, reported := rep2, markQueue := mq2 }
+          let o2 := { o with pendPara := o.pendPara.erase a, inFile := key :: o.inFile, noted := key :: o.noted, reported := rep2, markQueue := mq2,
+                             paraText := (key, bs) :: o.paraText }
           d := { d with c := { d.c with obs := o2 } }
         | none =>
           -- C03 oracle: a temporary failure (or no report at all) never produces a bounce paragraph
